@@ -407,6 +407,9 @@ func (m *machine) floatBuiltin(name string, a []Value) Value {
 		return m.fres(math.Trunc(x), false)
 	case "round":
 		step()
+		if x-math.Floor(x) == 0.5 {
+			m.ev.RoundTie++
+		}
 		return m.fres(math.RoundToEven(x), false)
 	case "fract":
 		step()
